@@ -2,6 +2,7 @@
 sources are declared exactly once; itemsets.csv reproduces the external_choices sheet."""
 
 import csv
+import os
 import io
 import itertools
 import re
@@ -83,6 +84,7 @@ def ext_features():
         "file-geojson": ({"type": "select_multiple_from_file f3.geojson", "name": "s3", "label": "S3"}, {"f3": "jr://file/f3.geojson"}),
         "file-csv-again": ({"type": "select_multiple_from_file f1.csv", "name": "s4", "label": "S4"}, {"f1": "jr://file-csv/f1.csv"}),
         "file-xml-clash": ({"type": "select_one_from_file f1.xml", "name": "s5", "label": "S5"}, {"f1": "jr://file/f1.xml"}),
+        "file-params-case": ({"type": "select_one_from_file f4.csv", "name": "s6", "label": "S6", "parameters": "Value=Code Label=NameEN"}, {"f4": "jr://file-csv/f4.csv"}),
         "xml-external": ({"type": "xml-external", "name": "x1"}, {"x1": "jr://file/x1.xml"}),
         "csv-external": ({"type": "csv-external", "name": "x2"}, {"x2": "jr://file-csv/x2.csv"}),
         "csv-external-f1": ({"type": "csv-external", "name": "f1"}, {"f1": "jr://file-csv/f1.csv"}),
@@ -118,6 +120,9 @@ def gen_csv(tier):
         for fill in itertools.product(pats, repeat=nrows):
             for hdr in (True, False):
                 yield {"k": "csv", "fill": [list(f) for f in fill], "hdr": hdr}
+                if nrows <= 2 and any(any(f) for f in fill):
+                    for vals in (1, 2):
+                        yield {"k": "csv", "fill": [list(f) for f in fill], "hdr": hdr, "vals": vals}
 
 
 SPACE = GenSpace({"lists": gen_lists, "ext": gen_external, "csv": gen_csv}, chunk=300)
@@ -396,6 +401,26 @@ def check_ext(case, wb, out, viol):
         if iid in got:
             viol.append(("external-instance-declared-twice", f"{iid}"))
         got[iid] = src
+    # selects from file read their own file with the value / label refs their parameters name
+    # (defaults: name / label, for geojson id / title)
+    for f in case["feats"]:
+        row = ext_features()[f][0]
+        ty = row["type"].split()
+        if not ty[0].endswith("_from_file"):
+            continue
+        stem, ext = os.path.splitext(ty[1])
+        pm = dict(kv.split("=", 1) for kv in row.get("parameters", "").split() if "=" in kv)
+        pm = {k.lower(): v for k, v in pm.items()}
+        want_v = pm.get("value", "id" if ext == ".geojson" else "name")
+        want_l = pm.get("label", "title" if ext == ".geojson" else "label")
+        el = next((e for e, tag, ref, anc in obs.body_controls() if ref and ref.endswith("/" + row["name"]) and tag in ("select", "select1")), None)
+        its = el.findall(O.X + "itemset") if el is not None else []
+        ok = len(its) == 1 and norm_ws(its[0].get("nodeset") or "") == f"instance('{stem}')/root/item"
+        if ok:
+            v, lb = its[0].find(O.X + "value"), its[0].find(O.X + "label")
+            ok = v is not None and lb is not None and v.get("ref") == want_v and lb.get("ref") == want_l
+        if not ok:
+            viol.append((f"from-file-itemset:{f}", f"want instance('{stem}') value={want_v} label={want_l}; got {[(i.get('nodeset'), [c.get('ref') for c in i]) for i in its]}"))
     if got != decl:
         missing = sorted(set(decl) - set(got))
         extra = sorted(set(got) - set(decl))
@@ -411,7 +436,8 @@ def build_csv(case):
         row = {"list_name": "e", "name": f"n{i}"}
         for bit, col in zip(fill, ("label", "state", "zz")):
             if bit:
-                row[col] = f"{col}{i}"
+                # values: plain, with inner double spaces, with quotes / commas / non-ASCII (the CSV must reproduce the cell)
+                row[col] = [f"{col}{i}", f"{col}  two  spaces {i}", f'{col},"q" \u00e9{i}'][case.get("vals", 0)]
         ext.append(row)
     wb = {"survey": [{"type": "text", "name": "st", "label": "ST"},
                      {"type": "select_one_external e", "name": "s", "label": "S", "choice_filter": "state=${st}"}],
